@@ -1779,3 +1779,10 @@ func init() {
 		}),
 	)
 }
+
+func init() {
+	addPackages("C27", "util", "types")
+	addPackages("C13", "util", "types")
+	extend("C27", "R27g (same rule as C28 R28d; three independent seeded changes against C27 and C13 edited the pooled-signature comparison, which only C28 anchored): a block transaction skips signature verification only when the pooled copy's whole signature — every field, compared between the two different transactions — is identical.", sigCoverageRule("R27g"))
+	extend("C13", "R13h (same rule as C28 R28d): whether a block is accepted must not depend on what the local mempool happens to hold.", sigCoverageRule("R13h"))
+}
